@@ -176,6 +176,16 @@ def run(out, tier, seed):
         if i % 4 == 0 and 'layout' not in d:
             d['layout'] = _pairs.LAYOUTS[(i // 4) % len(_pairs.LAYOUTS)]
     descs += ref_scenes()
+    # the scene on which the thorough tier found the negative-score defect (known_findings.json, dfece3c), and variants of it
+    import os as _os
+    neg = json.load(open(_os.path.join(_os.path.dirname(_os.path.dirname(_os.path.dirname(_os.path.abspath(__file__)))), 'findings', 'c08_spike_scene.json')))
+    for v in range(4):
+        d = json.loads(json.dumps(neg))
+        d['name'] = f'negscores:{v}'
+        d['rows'] = [[r[0], r[1], (r[2] + 100 * v) if r[2] is not None else None, r[3]] for r in d['rows']]
+        if v == 3:
+            d['prms']['LAYERING_PRMS']['gmm_kwargs']['delta_mul_gain'] = 0.95
+        descs.append(d)
     cfg = mcconf.chunk_cfg([], prmset='PrmMsaQ').replace('SPECIFICATION Spec\n', chunkprops.EXPORT_SPEC)
     f1, f1total = scenes.model_frames(cfg, 'PrmMsaQ', tier, seed, 300 if tier == 'quick' else 8000)
     for d in f1:
